@@ -737,6 +737,12 @@ def _gen_callee(ctx, fn, call):
             target = m[2]
             if any(sub.own(f.attr) is not None for sub in ctx.p.subclasses(fn.cls, strict=True)):
                 return None
+    elif isinstance(f, ast.Attribute) and isinstance(f.value, ast.Name):
+        r = ctx.p.resolve_name(fn.module, f.value.id)
+        if r and r[0] == "class":
+            m = r[1].lookup(f.attr)
+            if m and m[1] == "method" and m[2].kind in ("staticmethod", "classmethod"):
+                target = m[2]
     elif isinstance(f, ast.Name):
         r = ctx.p.resolve_name(fn.module, f.id)
         if r and r[0] == "func":
@@ -805,8 +811,9 @@ def expand_generators(ctx, fn):
 
     def expand(loop):
         call = loop.iter
-        if not isinstance(call, ast.Call) or loop.orelse or not isinstance(loop.target, ast.Name):
+        if not isinstance(call, ast.Call) or loop.orelse or not (isinstance(loop.target, ast.Name) or isinstance(loop.target, ast.Tuple) and all(isinstance(e, ast.Name) for e in loop.target.elts)):
             return None
+        tname = loop.target.id if isinstance(loop.target, ast.Name) else None
         callee = _gen_callee(ctx, fn, call)
         if callee is None:
             return None
@@ -815,6 +822,11 @@ def expand_generators(ctx, fn):
         if not body or not isinstance(body[-1], ast.For) or body[-1].orelse:
             return None
         gloop, prelude = body[-1], body[:-1]
+        # `if <guard>: return` before the loop: the loop runs under `not <guard>`
+        guards = [st for st in prelude if isinstance(st, ast.If) and not st.orelse and len(st.body) == 1 and isinstance(st.body[0], ast.Return) and st.body[0].value is None]
+        if guards and prelude[-len(guards):] != guards:
+            return None
+        prelude = prelude[: len(prelude) - len(guards)]
         if any(isinstance(x, (ast.Yield, ast.Return, ast.For, ast.While, ast.Try, ast.With)) for st in prelude for x in _walk_own(st)):
             return None
         inner = gloop.body
@@ -847,8 +859,8 @@ def expand_generators(ctx, fn):
         ren = {}
         # the local every `yield` hands out IS the caller's loop variable
         handed = {y.value.id for y in yields if isinstance(y.value, ast.Name)}
-        if len(handed) == 1 and all(isinstance(y.value, ast.Name) for y in yields) and next(iter(handed)) in own - set(params) and loop.target.id not in own - handed:
-            ren[next(iter(handed))] = loop.target.id
+        if tname and len(handed) == 1 and all(isinstance(y.value, ast.Name) for y in yields) and next(iter(handed)) in own - set(params) and tname not in own - handed:
+            ren[next(iter(handed))] = tname
         for nm in own - set(ren):
             if nm in taken and not (nm in binding and isinstance(binding[nm], ast.Name) and binding[nm].id == nm):
                 counter[0] += 1
@@ -866,6 +878,7 @@ def expand_generators(ctx, fn):
                 continue
             pre.append(ast.Assign(targets=[ast.Name(id=tgt, ctx=ast.Store())], value=copy.deepcopy(binding[prm]), lineno=loop.lineno))
         prelude = [Ren().visit(st) for st in prelude]
+        guards = [Ren().visit(st) for st in guards]
         gloop = Ren().visit(gloop)
 
         class Sub(ast.NodeTransformer):
@@ -880,13 +893,16 @@ def expand_generators(ctx, fn):
             def visit_Expr(self, n):
                 if isinstance(n.value, ast.Yield):
                     bind = []
-                    if not (isinstance(n.value.value, ast.Name) and n.value.value.id == loop.target.id):
-                        bind = [ast.Assign(targets=[ast.Name(id=loop.target.id, ctx=ast.Store())], value=n.value.value, lineno=n.lineno)]
+                    if not (tname and isinstance(n.value.value, ast.Name) and n.value.value.id == tname):
+                        bind = [ast.Assign(targets=[copy.deepcopy(loop.target)], value=n.value.value, lineno=n.lineno)]
                     return bind + [copy.deepcopy(st) for st in loop.body]
                 return n
 
         gloop.body = [y for st in gloop.body for y in (lambda r: r if isinstance(r, list) else [r])(Sub().visit(st))]
-        out = pre + prelude + [gloop]
+        inner_out = [gloop]
+        for gd in reversed(guards):
+            inner_out = [ast.If(test=ast.UnaryOp(op=ast.Not(), operand=gd.test), body=inner_out, orelse=[])]
+        out = pre + prelude + inner_out
         for st in out:
             for x in ast.walk(st):
                 if isinstance(x, (ast.stmt, ast.expr)) and not hasattr(x, "lineno"):
